@@ -42,7 +42,11 @@ saved-text-unreadable, saved-text-means-something-else = the writer changed the 
 generation treats a right text differently) and <construct> is the main construct of the shrunk model (shrinking keeps the meaning);
 component-membership-changed and reload-raises:StateNotFoundInComponent get :default-component-after-named-block when what moved is an
 assignment that the TEXT puts into the default component next to assignments of a named expressions block (for the exception: a state
-derivative) - the listed writer defect; a state / parameter / named-block assignment that moves keeps the bare signature."""
+derivative) - the listed writer defect; a state / parameter / named-block assignment that moves keeps the bare signature.
+save-raises and reloaded-codegen-raises get the suffix of the listed mechanism (common.codegen_exception_class on the original / reloaded
+model's expressions: :piecewise-collapses-under-simplify at a _print_Piecewise site, :boolean-used-arithmetically, :unprintable-<node>; for
+save-raises before the attribute name); reloaded-call-raises:OverflowError gets the <meaning> of the saved text (saved-text-overflows);
+imported-model:reload-raises:MissingSymbolError names the missing identifier."""
 
 DT = 0.01
 HEAD = "parameters(a=2.0, b=0.5)\nstates(x=1.5, y=2.0)\n"
@@ -329,7 +333,9 @@ def compare_numeric(ode, o2, text, points, res, add, ref, saved=""):
     try:
         b2 = bk.build(o2, "numpy", schemes)
     except bk.Stage as e:
-        add(f"C11:reloaded-{e.kind}", "code generation / import of the generated module fails for the reloaded model but not for the original", "module", cm.exc_name(e.exc), cm.short(e), shrink=True)
+        # listed mechanisms (common.codegen_exception_class) on the RELOADED model's expressions: the saved, simplified Conditional collapses once more
+        cls = cm.codegen_exception_class(e.exc, cm.model_exprs(o2), ref) if e.stage == "codegen" else ""
+        add(f"C11:reloaded-{e.kind}{cls}", "code generation / import of the generated module fails for the reloaded model but not for the original", "module", cm.exc_name(e.exc), cm.short(e), shrink=True)
         return 0
     npts = 0
     queue = [(pt, ref is not None) for pt in points]
@@ -365,7 +371,9 @@ def compare_numeric(ode, o2, text, points, res, add, ref, saved=""):
         try:
             v2 = all_values(b2, pt, schemes)
         except bk.Stage as e:
-            add(f"C11:reloaded-call-raises:{cm.exc_name(e.exc)}", f"{e.detail} of the reloaded model raises where the original returns finite values", "finite values", cm.exc_name(e.exc), cm.short(e), pt=pt, shrink=True)
+            # what the saved text means here according to the reference reader names the mechanism (saved-text-overflows: 2**-t**2 saved as 1/2**(t**2))
+            sm = ":" + saved_meaning(saved, pt, {"d" + n + "_dt": w for n, w in v1["rhs"].items()}, scale) if isinstance(e.exc, OverflowError) else ""
+            add(f"C11:reloaded-call-raises:{cm.exc_name(e.exc)}{sm}", f"{e.detail} of the reloaded model raises where the original returns finite values", "finite values", cm.exc_name(e.exc), cm.short(e), pt=pt, shrink=True)
             continue
         scale = max([scale] + [abs(v) for v in pt["states"].values()] + [abs(x) for x in v1["rhs"].values()])
         sens = None
@@ -451,7 +459,7 @@ def roundtrip(text, points, res, shr, ode=None, what="model", upto=None):
                 ode.save(path)
             state["saved"] = saved = open(path).read()
         except Exception as e:  # noqa: BLE001
-            sig = f"C11:save-raises:{cm.exc_site(e)}" + (f":{e.name}" if isinstance(e, AttributeError) and getattr(e, "name", None) else "")
+            sig = f"C11:save-raises:{cm.exc_site(e)}{cm.codegen_exception_class(e, cm.model_exprs(ode), ref)}" + (f":{e.name}" if isinstance(e, AttributeError) and getattr(e, "name", None) else "")
             also = ""
             try:
                 cm.py_code(ode)
@@ -537,7 +545,8 @@ def check_import(case, res):
             msg = cm.short(e)
             m = re.search(r"line (\d+)", msg)
             ln = saved.splitlines()[int(m.group(1)) - 1] if m and int(m.group(1)) <= len(saved.splitlines()) else ""
-            add(f"C11:imported-model:reload-raises:{cm.exc_name(e)}", f"the documented save-and-reload step fails for a model imported from {kind}", "a loadable file", cm.exc_site(e),
+            ident = re.search(r"Symbol '([^']+)' not found", str(e)) if cm.exc_name(e) == "MissingSymbolError" else None
+            add(f"C11:imported-model:reload-raises:{cm.exc_name(e)}" + (f":{ident.group(1)}" if ident else ""), f"the documented save-and-reload step fails for a model imported from {kind}", "a loadable file", cm.exc_site(e),
                 f"{msg} :: offending saved line: {ln[:200]}")
             return
     A, B = atoms_of(ode), atoms_of(o2)
